@@ -4,6 +4,13 @@ import jsonschema
 V = os.path.dirname(os.path.dirname(os.path.abspath(__file__)))
 jsonschema.validate(json.load(open(V + '/MANIFEST.json')), json.load(open('/root/.vp/MANIFEST.schema.json')))
 es = json.load(open('/root/.vp/EVIDENCE.schema.json'))
+man = json.load(open(V + '/MANIFEST.json'))
+cat = {c['property_id']: c['level_claimed']['category'] for c in man['checks']}
 for f in sorted(glob.glob(V + '/evidence/*.json')):
-    jsonschema.validate(json.load(open(f)), es)
+    e = json.load(open(f))
+    jsonschema.validate(e, es)
+    assert e['level'] == cat.get(e['property_id']), (f, e['level'], cat.get(e['property_id']))
+props = [json.loads(l)['id'] for l in open(V + '/properties.jsonl') if l.strip()]
+na = [x['property_id'] if isinstance(x, dict) else x for x in man.get('not_applicable', [])]
+assert sorted(set(cat) | set(na)) == sorted(props), 'every property is either claimed or not_applicable'
 print('valid: MANIFEST +', len(glob.glob(V + '/evidence/*.json')), 'evidence files')
